@@ -417,6 +417,56 @@ func (g *Gen) honestRun(logname string, user *PoolKey, h []HandlerSpec, signer [
 var Validities = []uint64{1, 60, 3600, 43200, 86400, 315360000, 4294963695 /* 2^32-3601 */}
 var WrapValidities = []uint64{4294963696 /* 2^32-3600: lifetime 0 */, 4294967295, 4294967296, 4294967297 + 7200, 0}
 
+// NearNames: spellings that are close to a registered login name and are different accounts all the same.
+func NearNames(base string) []string {
+	up := strings.ToUpper(base)
+	title := strings.ToUpper(base[:1]) + base[1:]
+	return []string{title, up, base + "@partner.example.net", base + "@" + base, base + " ", " " + base, base + ".", base + "-", base + "_", base + "\t",
+		base + "u\u0308", // a decomposed spelling next to a composed one
+		base[:len(base)-1]}
+}
+
+// NearNameSessions: a key is registered for `base`; the request comes in under a spelling close to it.  Nothing is
+// registered for that spelling (the holder of base's key must be refused), or another key is (only its holder passes).
+func (g *Gen) NearNameSessions(class string, n int) {
+	users := g.Pool.Users
+	for i := 0; i < n; i++ {
+		base := LogNames[i%4]
+		if i%7 == 6 {
+			base = "ünï"
+		}
+		var near string
+		if base == "ünï" {
+			near = core.Pick(g.R, "u\u0308nï", "ÜNÏ", "ünï@partner.example.net", "üni")
+		} else {
+			nn := NearNames(base)
+			near = nn[(i/4)%len(nn)]
+		}
+		user, other := users[i%len(users)], users[(i+1)%len(users)]
+		var dir []DirEntry
+		if i%2 == 0 {
+			dir = append(dir, DirEntry{Name: base + ".pub", Kind: FileKey, Key: user})
+		} else {
+			dir = append(dir, DirEntry{Name: base, Kind: FileKey, Key: user})
+		}
+		holder := user
+		if i%3 == 2 {
+			// the near spelling is an account of its own, with another key
+			dir = append(dir, DirEntry{Name: near + ".pub", Kind: FileKey, Key: other})
+			if i%2 == 0 {
+				holder = other
+			}
+		}
+		h := []HandlerSpec{g.Regular(nil, FullKeyIDs())}
+		runs := []RunSpec{g.honestRun(near, holder, h, OneCert())}
+		if i%5 == 0 {
+			// and the registered spelling afterwards, through the same handlers
+			runs = append(runs, g.honestRun(base, user, h, OneCert()))
+		}
+		g.Emit(class, SessionSpec{Dir: dir, Store0: g.Store0(g.R.Intn(2)), Runs: runs, Reuse: i%2 == 0})
+	}
+}
+
 // ---------------------------------------------------------------- C01 ----
 
 func (g *Gen) DriveC01() {
@@ -466,6 +516,8 @@ func (g *Gen) DriveC01() {
 		run := RunSpec{Params: p, Handlers: patterns[x.pat], Beh: g.BehOf(x.beh, user), Signer: []SOutSpec{g.MostlyGoodOutcome(), g.MostlyGoodOutcome()}}
 		g.Emit(fmt.Sprintf("grid/%s/dir%d", BehNames[x.beh], x.dir), SessionSpec{Dir: dir, Store0: g.Store0(g.R.Intn(3)), Runs: []RunSpec{run}})
 	}
+
+	g.NearNameSessions("near-name", c.N(40, 200))
 
 	// histories: honest runs interleaved with replays of earlier signatures and other strategies
 	for i := 0; i < c.N(40, 600); i++ {
@@ -650,6 +702,7 @@ func (g *Gen) DriveC02() {
 		}
 		g.Emit("request/fields", SessionSpec{Dir: dir, Store0: g.Store0(g.R.Intn(3)), Runs: runs, Reuse: g.R.Intn(3) != 0})
 	}
+	g.NearNameSessions("request/near-name", c.N(24, 120))
 }
 
 // ---------------------------------------------------------------- C03 ----
